@@ -71,8 +71,12 @@ def drive_document(ctx, args):
                    line_number=mk_int(1, "usize"), config=default_cfg(is_cram))
     out = mk_struct("Output", stderr=Agg("OutputStream", None, [VecBuf([], "u8")]), stdout=Agg("OutputStream", None, [VecBuf(list(line_bytes.items), "u8")]),
                     exit_code=Agg("ExitStatus", "Code", [mk_int(0, "i32")]))
-    outcome = mk_struct("Outcome", location=none(), output=out, testcase=tc, format=Opaque("format"), escaping=escaper,
+    convert = bool(ctx.notes.get("convert"))
+    outcome = mk_struct("Outcome", location=none(), output=out, testcase=tc, format=Agg("ParserType", "Cram" if (is_cram or convert) else "Markdown", []), escaping=escaper,
                         result=Agg("Result", "Err", [Agg("TestCaseError", "MalformedOutput", [diff])]))
+    if convert:
+        # `--convert markdown` of a Cram test: the test case carries the Cram defaults, the Markdown generator writes it
+        tc.fields[__import__("mir_exec").STRUCTS["TestCase"].index("config")] = default_cfg(True)
     if is_cram:
         gen = mk_struct("CramTestCaseGenerator", indention=mk_int(2, "usize"))
         g = ctx.call(find_method(prog, "generators/cram.rs", "generate_testcases"), [new_ref(gen), Slice([new_ref(outcome)])])
@@ -86,6 +90,11 @@ def drive_document(ctx, args):
     r = docs.cram_parse_driver(ctx, [text]) if is_cram else docs.md_parse_driver(ctx, [text])
     if r.variant != "Ok":
         return Agg("tuple", None, [SBool(True), SBool(False), Slice([])])
+    if convert:
+        # what differs from the Markdown defaults is written after the language: the converted test validates the same stream, the same bytes
+        handed = [t for ty, t in ctx.notes.get("yaml_texts", []) if ty == "TestCaseConfig"]
+        if handed != ["{output_stream: combined, keep_crlf: true}"]:
+            return Agg("tuple", None, [SBool(True), SBool(False), Slice([])])
     return Agg("tuple", None, [SBool(True), SBool(True), Slice(as_items(r.fields[0].fields[1]))])
 
 
@@ -148,10 +157,11 @@ def rule_matches(ctx, rule, line_bytes):
     return ctx.call(find_method(ctx.program, f, "matches"), [new_ref(rule), line_bytes])
 
 
-def h_generated(max_u, mode, cram, document_level=False):
+def h_generated(max_u, mode, cram, document_level=False, convert=False):
     def mk(nu, suffix, nl):
         def setup(ctx):
             ctx.notes["document_level"] = document_level
+            ctx.notes["convert"] = convert
             u = [ctx.sym_char("u%d" % i, 1) for i in range(nu)]
             for ch in u:
                 ctx.add(z3.Or([ch.z() == ord(x) for x in ALPHA]))
@@ -245,7 +255,7 @@ def h_generated(max_u, mode, cram, document_level=False):
                 if nu + len(suffix) == 0:
                     continue
                 inputs.append(("L = u(%d) ++ %r newline=%s" % (nu, suffix, nl), mk(nu, suffix, nl)))
-    h = e2.Harness("generated_%s_passes_%s_%s" % ("document" if document_level else "test", "cram" if cram else "markdown", mode.lower()), drive_and_judge, inputs, post2,
+    h = e2.Harness("generated_%s_passes_%s_%s" % ("conversion" if convert else "document" if document_level else "test", "cram" if cram else "markdown", mode.lower()), drive_and_judge, inputs, post2,
                    native="generate_and_validate", judge=judge,
                    describe=("the whole document written by the format's generator (title, fence / indentation, body) parses with the format's real parser to one "
                              "test case with the same command, no exit code and one quantifier-free expectation that matches the output line" if document_level else
@@ -673,6 +683,9 @@ def run(pid, tier):
     for cram in (False, True):
         hdoc = h_generated(1 if q else 2, "Unicode", cram, document_level=True)
         e2.process(rep, prog, NAT, hdoc, tier, to_native_args=lambda a: [a[0], "unicode", "cram" if a[2] else "markdown"], max_witnesses=40)
+    # --convert: a Cram test written by the Markdown generator keeps its stream / line-ending configuration
+    hcv = h_generated(0 if q else 1, "Unicode", False, document_level=True, convert=True)
+    e2.process(rep, prog, NAT, hcv, tier, to_native_args=lambda a: [a[0], "unicode", "markdown", [], "cmd", True], max_witnesses=6)
     # shell expressions of several lines
     for cram in (False, True):
         hq = h_generated_expression("Unicode", cram, 2 if q else 3)
